@@ -6,6 +6,7 @@ import (
 	"go/ast"
 	"go/token"
 	"go/types"
+	"regexp"
 	"strings"
 
 	"golang.org/x/tools/go/packages"
@@ -3282,6 +3283,368 @@ func init() {
 			out := scanNTTLast(c)
 			out = append(out, control(c, "NTTLAST", scanNTTLast, "lvfixture.nttToyLazy")...)
 			out = append(out, core.Floor("NTTLAST", nil, "lazy forward transforms with a layer loop", c.Stats["nttlast_fns"], 4)...)
+			return out
+		}})
+}
+
+// NORMUSE — once a parameter has been normalised into a local, the raw parameter is not used again.
+//
+// `shift := ((k % 2N) + 2N) % 2N` turns the exponent k of a monomial into its canonical representative; every later
+// decision has to be made on `shift`. `if k < N` instead of `if shift < N` is right for 0 <= k < 2N — every value the
+// tests use — and wrong for negative k and k >= 2N (the sign of the result flips).
+//
+// Rule: when a local v is defined from an integer parameter p by an expression that wraps p (`%`, or `&` with a mask),
+// and v is a different variable, no expression after that definition mentions p again (it may still be used before,
+// e.g. to test p == 0).
+func scanNormUse(c *core.Ctx) []ob {
+	var out []ob
+	n := 0
+	c.FuncDecls(func(pk *packages.Package, file *ast.File, fd *ast.FuncDecl) {
+		if fd.Body == nil || fileIsTestSupport(c.Program, fd.Pos()) || inExamples(pk) {
+			return
+		}
+		info := pk.TypesInfo
+		fn, _ := info.Defs[fd.Name].(*types.Func)
+		if fn == nil {
+			return
+		}
+		sig := fn.Type().(*types.Signature)
+		params := map[types.Object]bool{}
+		for i := 0; i < sig.Params().Len(); i++ {
+			p := sig.Params().At(i)
+			if b, ok := p.Type().Underlying().(*types.Basic); ok && b.Info()&types.IsInteger != 0 {
+				params[p] = true
+			}
+		}
+		if len(params) == 0 {
+			return
+		}
+		fkey := core.FuncKey(pk, fd)
+		// wraps(e, p): e is p wrapped into a range — `p % m`, `p & mask`, `(p % m + m) % m` (the value that goes through
+		// the chain of %/&/+ on the left is p itself)
+		var wrapped func(e ast.Expr, seenWrap bool) (types.Object, bool)
+		wrapped = func(e ast.Expr, seenWrap bool) (types.Object, bool) {
+			switch x := unparen(e).(type) {
+			case *ast.BinaryExpr:
+				switch x.Op {
+				case token.REM, token.AND:
+					return wrapped(x.X, true)
+				case token.ADD:
+					return wrapped(x.X, seenWrap)
+				}
+			case *ast.Ident:
+				return info.Uses[x], seenWrap
+			}
+			return nil, false
+		}
+		wraps := func(e ast.Expr, p types.Object) bool {
+			o, w := wrapped(e, false)
+			return w && o == p
+		}
+		var defsites []*ast.AssignStmt
+		ast.Inspect(fd.Body, func(x ast.Node) bool {
+			if as, ok := x.(*ast.AssignStmt); ok && len(as.Lhs) == len(as.Rhs) {
+				defsites = append(defsites, as)
+			}
+			return true
+		})
+		for _, as := range defsites {
+			for i, l := range as.Lhs {
+				id, ok := l.(*ast.Ident)
+				if !ok {
+					continue
+				}
+				v := info.Defs[id]
+				if v == nil {
+					continue // only fresh locals: `k &= mask` re-uses the parameter itself
+				}
+				for p := range params {
+					if !wraps(as.Rhs[i], p) {
+						continue
+					}
+					n++
+					key := fmt.Sprintf("NORMUSE:%s#%s->%s", fkey, p.Name(), v.Name())
+					var bad *ast.Ident
+					ast.Inspect(fd.Body, func(x ast.Node) bool {
+						if u, ok := x.(*ast.Ident); ok && bad == nil && u.Pos() > as.End() && info.Uses[u] == p {
+							bad = u
+						}
+						return true
+					})
+					if bad == nil {
+						out = append(out, withProps(okOb("NORMUSE", key, c.Rel(as.Pos()), "the raw parameter is not mentioned after its normalised form is defined", true), bufProps(fkey)...))
+					} else {
+						out = append(out, withProps(violOb("NORMUSE", key, c.Rel(bad.Pos()), fmt.Sprintf("%s normalises the parameter %s into %s (%s) and then uses the raw %s again: decisions made on the raw value are only right while it is already in the canonical range", fkey, p.Name(), v.Name(), exprString(as.Rhs[i]), p.Name())), bufProps(fkey)...))
+					}
+				}
+			}
+		}
+	})
+	c.Stats["normuse_sites"] = n
+	return out
+}
+
+func init() {
+	core.Register(&core.Rule{Name: "NORMUSE", Wide: true, Props: []string{"C01", "C02", "C03", "C04", "C05", "C06", "C07", "C08", "C09", "C10", "C11", "C12", "C13", "C14", "C15", "C16", "C17", "C18", "C19", "C20"},
+		Doc: "when a statement defines a fresh local from an integer parameter by an expression that wraps it (`%` or `&`), the raw parameter is not mentioned after that definition",
+		Run: func(c *core.Ctx) []ob {
+			out := scanNormUse(c)
+			out = append(out, control(c, "NORMUSE", scanNormUse, "lvfixture.shiftSign")...)
+			return out
+		}})
+}
+
+// SIBDEF — siblings that differ by a suffix define their shared constants the same way.
+//
+// `DivRoundByLastModulus` and `DivRoundByLastModulusNTT` both centre by `pHalf := (q_level - 1) >> 1`; the NTT variant
+// with `(q_level + 1) >> 1` rounds x = (q-1)/2 mod q the other way, only for values the tests do not draw.
+//
+// Rule: for every pair of functions or methods of one receiver type whose names differ by one of the suffixes NTT,
+// Lazy, Many, New, InPlace, ThenAdd (F and F+suffix), a local variable that both define exactly once, by a call-free
+// arithmetic expression, is defined by the same expression in both (parameter names compared positionally).
+var sibSuffixes = []string{"NTT", "Lazy", "Many", "NTTMany", "ManyNTT", "Montgomery", "TwoModulus"}
+
+func scanSibDef(c *core.Ctx) []ob {
+	var out []ob
+	n := 0
+	type decl struct {
+		pk *packages.Package
+		fd *ast.FuncDecl
+	}
+	byKey := map[string]decl{}
+	c.FuncDecls(func(pk *packages.Package, file *ast.File, fd *ast.FuncDecl) {
+		if fd.Body == nil || fileIsTestSupport(c.Program, fd.Pos()) || inExamples(pk) {
+			return
+		}
+		byKey[pk.PkgPath+"|"+core.RecvTypeName(fd)+"|"+fd.Name.Name] = decl{pk, fd}
+	})
+	pureDefs := func(d decl) map[string]string {
+		info := d.pk.TypesInfo
+		cnt := map[string]int{}
+		val := map[string]string{}
+		// positional parameter names -> $i
+		ren := map[types.Object]string{}
+		if fn, ok := info.Defs[d.fd.Name].(*types.Func); ok {
+			sig := fn.Type().(*types.Signature)
+			for i := 0; i < sig.Params().Len(); i++ {
+				ren[sig.Params().At(i)] = fmt.Sprintf("$%d", i)
+			}
+			if sig.Recv() != nil {
+				ren[sig.Recv()] = "$r"
+			}
+		}
+		ast.Inspect(d.fd.Body, func(x ast.Node) bool {
+			as, ok := x.(*ast.AssignStmt)
+			if !ok || len(as.Lhs) != len(as.Rhs) {
+				return true
+			}
+			for i, l := range as.Lhs {
+				id, ok := l.(*ast.Ident)
+				if !ok || id.Name == "_" {
+					continue
+				}
+				cnt[id.Name]++
+				pure, arith := true, false
+				ast.Inspect(as.Rhs[i], func(y ast.Node) bool {
+					switch v := y.(type) {
+					case *ast.CallExpr, *ast.FuncLit, *ast.CompositeLit:
+						pure = false
+					case *ast.BinaryExpr:
+						if v.Op == token.SHR || v.Op == token.SHL || v.Op == token.ADD || v.Op == token.SUB || v.Op == token.MUL || v.Op == token.QUO {
+							arith = true
+						}
+					}
+					return pure
+				})
+				if !pure || !arith || as.Tok != token.DEFINE {
+					cnt[id.Name] += 10
+					continue
+				}
+				// textual form with parameters renamed positionally
+				txt := exprString(as.Rhs[i])
+				ast.Inspect(as.Rhs[i], func(y ast.Node) bool {
+					if u, ok := y.(*ast.Ident); ok {
+						if r, ok := ren[info.Uses[u]]; ok {
+							txt = regexpReplaceWord(txt, u.Name, r)
+						}
+					}
+					return true
+				})
+				val[id.Name] = txt
+			}
+			return true
+		})
+		res := map[string]string{}
+		for k, v := range val {
+			if cnt[k] == 1 {
+				res[k] = v
+			}
+		}
+		return res
+	}
+	keys := make([]string, 0, len(byKey))
+	for k := range byKey {
+		keys = append(keys, k)
+	}
+	sort.Strings(keys)
+	for _, k := range keys {
+		for _, suf := range sibSuffixes {
+			sib, ok := byKey[k+suf]
+			if !ok {
+				continue
+			}
+			a, b := pureDefs(byKey[k]), pureDefs(sib)
+			var names []string
+			for nm := range a {
+				if _, ok := b[nm]; ok {
+					names = append(names, nm)
+				}
+			}
+			sort.Strings(names)
+			for _, nm := range names {
+				n++
+				fk := core.FuncKey(byKey[k].pk, byKey[k].fd)
+				key := fmt.Sprintf("SIBDEF:%s~%s#%s", fk, suf, nm)
+				if a[nm] == b[nm] {
+					out = append(out, withProps(okOb("SIBDEF", key, c.Rel(sib.fd.Pos()), "both siblings define the local by the same expression: "+a[nm], true), bufPropsRing(fk)...))
+				} else {
+					out = append(out, withProps(violOb("SIBDEF", key, c.Rel(sib.fd.Pos()), fmt.Sprintf("%s defines %s := %s but its sibling %s defines %s := %s: the two variants of the operation work with different constants", fk, nm, a[nm], sib.fd.Name.Name, nm, b[nm])), bufPropsRing(fk)...))
+				}
+			}
+		}
+	}
+	c.Stats["sibdef_locals"] = n
+	return out
+}
+
+func regexpReplaceWord(s, word, repl string) string {
+	re := regexp.MustCompile(`\b` + regexp.QuoteMeta(word) + `\b`)
+	return re.ReplaceAllString(s, repl)
+}
+
+func init() {
+	core.Register(&core.Rule{Name: "SIBDEF", Props: []string{"C02", "C01", "C04", "C07", "C18"},
+		Doc: "for every pair of functions F and F+suffix (NTT, Lazy, Many, Montgomery, TwoModulus) of one receiver type, a local that both define exactly once by a call-free arithmetic expression is defined by the same expression in both (parameters compared positionally)",
+		Run: func(c *core.Ctx) []ob {
+			out := scanSibDef(c)
+			for _, o := range control(c, "SIBDEF", scanSibDef, "lvfixture.roundHalf") {
+				out = append(out, withProps(o, "C02", "C01", "C04", "C07", "C18"))
+			}
+			return out
+		}})
+}
+
+// CEILLOG — the logarithm of a count that enters a bound is rounded up.
+//
+// The head-room for the sum of n masks of B bits is ceil(B + log2 n) bits; `bits.Len64(n)-1` or `uint(math.Log2(n))`
+// is the floor: one bit too few for every n that is not a power of two, and the collective refresh is then called at
+// a level where the masked plaintext wraps modulo Q. Frozen table (function, quantity), confirmed by reading: in these
+// functions every log2 taken of the quantity — math.Log2(float64(q)), bits.Len/Len64(q…) — is in a rounding-up form:
+// inside a math.Ceil call, or bits.Len(q-1) (= ceil(log2 q) for q >= 1). Floor/Round/truncating conversions and
+// `bits.Len(q)-1` are reported. A function that no longer takes that logarithm at all is not decided (info).
+var ceilLogTable = []struct{ fn, quantity, why string }{
+	{"multiparty/mpckks.GetMinimumLevelForRefresh", "nParties", "the masks of nParties parties are summed: the bound on the sum needs ceil(log2 nParties) more bits"},
+	{"utils/bignum.(Polynomial).Depth", "Degree()", "a polynomial of degree d needs ceil(log2 d) multiplications in depth"},
+}
+
+func scanCeilLog(c *core.Ctx) []ob {
+	var out []ob
+	n := 0
+	c.FuncDecls(func(pk *packages.Package, file *ast.File, fd *ast.FuncDecl) {
+		if fd.Body == nil {
+			return
+		}
+		fkey := core.FuncKey(pk, fd)
+		for _, e := range ceilLogTable {
+			if e.fn != fkey && !(c.IsFixture && strings.HasSuffix(fkey, "minLevelFor") && e.quantity == "nParties") {
+				continue
+			}
+			info := pk.TypesInfo
+			pm := parentMapCached(fd)
+			mentionsQ := func(x ast.Node) bool {
+				return strings.Contains(exprString(x.(ast.Expr)), e.quantity)
+			}
+			var sites []ast.Node
+			bad := map[ast.Node]string{}
+			ast.Inspect(fd.Body, func(x ast.Node) bool {
+				call, ok := x.(*ast.CallExpr)
+				if !ok {
+					return true
+				}
+				fn := calleeFunc(info, call)
+				if fn == nil || fn.Pkg() == nil || len(call.Args) != 1 || !mentionsQ(call.Args[0]) {
+					return true
+				}
+				switch {
+				case fn.Pkg().Path() == "math" && fn.Name() == "Log2":
+					sites = append(sites, call)
+					// rounding-up context: an enclosing math.Ceil before any truncating conversion / Floor / Round
+					okCtx := false
+					for p := pm[ast.Node(call)]; p != nil; p = pm[p] {
+						if pc, ok := p.(*ast.CallExpr); ok {
+							if pf := calleeFunc(info, pc); pf != nil && pf.Pkg() != nil && pf.Pkg().Path() == "math" {
+								if pf.Name() == "Ceil" {
+									okCtx = true
+									break
+								}
+								if pf.Name() == "Floor" || pf.Name() == "Round" || pf.Name() == "Trunc" {
+									break
+								}
+							}
+							if tv, ok := info.Types[pc.Fun]; ok && tv.IsType() {
+								if b, ok := tv.Type.Underlying().(*types.Basic); ok && b.Info()&types.IsInteger != 0 {
+									break // truncation before any Ceil
+								}
+							}
+						}
+						if _, isStmt := p.(ast.Stmt); isStmt {
+							break
+						}
+					}
+					if !okCtx {
+						bad[call] = "math.Log2 of it is not rounded up by math.Ceil before it is used (truncated, floored or rounded to nearest)"
+					}
+				case fn.Pkg().Path() == "math/bits" && strings.HasPrefix(fn.Name(), "Len"):
+					sites = append(sites, call)
+					// bits.Len(q-1) is the ceiling; bits.Len(q) (with or without -1) is not
+					arg := exprString(call.Args[0])
+					if !strings.Contains(strings.ReplaceAll(arg, " ", ""), e.quantity+"-1") {
+						bad[call] = "bits." + fn.Name() + " of it (minus one or not) is floor(log2)+1 or floor(log2), not the ceiling: only bits.Len(q-1) is"
+					}
+				}
+				return true
+			})
+			n++
+			key := fmt.Sprintf("CEILLOG:%s#%s", fkey, e.quantity)
+			props := bufProps(fkey)
+			if strings.HasPrefix(fkey, "utils/bignum") {
+				props = []string{"C13"}
+			}
+			switch {
+			case len(sites) == 0:
+				out = append(out, withProps(infoOb("CEILLOG", key, c.Rel(fd.Pos()), "the function no longer takes a base-2 logarithm of "+e.quantity+": not decided"), props...))
+			case len(bad) > 0:
+				for site, why := range bad {
+					out = append(out, withProps(violOb("CEILLOG", key, c.Rel(site.Pos()), fmt.Sprintf("%s: %s — %s; %s", fkey, exprString(site.(ast.Expr)), why, e.why)), props...))
+					break
+				}
+			default:
+				out = append(out, withProps(okOb("CEILLOG", key, c.Rel(fd.Pos()), "every log2 of the quantity is rounded up", true), props...))
+			}
+		}
+	})
+	c.Stats["ceillog_fns"] = n
+	return out
+}
+
+func init() {
+	core.Register(&core.Rule{Name: "CEILLOG", Props: []string{"C16", "C13"},
+		Doc: "in the functions of a frozen table (collective refresh head-room, polynomial depth), every base-2 logarithm taken of the named count is in a rounding-up form: inside math.Ceil, or bits.Len(q-1); truncation, Floor, Round and bits.Len(q)-1 are reported",
+		Run: func(c *core.Ctx) []ob {
+			out := scanCeilLog(c)
+			for _, o := range control(c, "CEILLOG", scanCeilLog, "lvfixture.minLevelFor") {
+				out = append(out, withProps(o, "C16", "C13"))
+			}
 			return out
 		}})
 }
